@@ -362,6 +362,7 @@ func c18Run(w *run.Worker) {
 	c04Paths(w, d)
 	c04Alias(w, d)
 	c04Reeval(w, d)
+	c04LenIn(w, d)
 	c18Structural(w)
 	c04Slices(w, d)
 }
